@@ -20,7 +20,11 @@ Floating point. The field theorems speak of exact arithmetic. The last sections 
 `rounded_cell_in_grid` / `rounded_conservation` are about the SAME definitions `mkGrid`, `getCell`, `scatter` instantiated
 at `RQ rnd` (rationals, every operation rounded by `rnd`; `Lemmas/RasterRounded.lean`), under explicit hypotheses on `rnd`
 (monotone, integers up to the grid size kept, relative error `u`). Rounding inside the cell operators' sums is not covered.
-`scatter_stops_at_outside` and `compute_failing_bands` state what a failing call leaves behind. -/
+`scatter_stops_at_outside` and `compute_failing_bands` state what a failing call leaves behind.
+
+Feature tables. The theorems here speak of the feature values of a track BY NAME (`Trk.feats`, `featVals`). That the ranks at
+which a track stores its features (its own dictionary; different from track to track in one collection) do not matter is
+`Props/C19Layout.lean`: `add_collection_by_name`, `track_layout_sound`, `add_collection_layout_independent`. -/
 namespace TV.C19
 open TV.Raster
 variable {α : Type} [Field α] [LinearOrder α] [IsStrictOrderedRing α] [FloorRing α]
